@@ -9,6 +9,7 @@ package c07
 
 import (
 	"bytes"
+	"time"
 
 	"github.com/quickfixgo/quickfix"
 
@@ -27,7 +28,7 @@ func init() {
 	core.Register(&core.Prop{
 		ID: "C07", Level: "exploration",
 		Rule:        "cases are connection histories: all 16 combinations of ResetOnLogon/ResetOnLogout/ResetOnDisconnect/RefreshOnLogon x role x BeginString (FIX.4.0 has no reset flag) x starting counters x 1-4 connect/logon/traffic/(logout|stop|abrupt close) cycles x store (memory, file, sqlite; the persistent ones with an engine restart between cycles) x peer sending 141=Y or not; plus the SequenceReset matrix NewSeqNo {<,=,>} x GapFillFlag {absent,N,Y} x MsgSeqNum {low,ok,high} x PossDup; non-trivial = history with >=2 connections and a counter != 1 before the judged event; distinct by (configuration, cycle shapes)",
-		Assumptions: []string{"ResetOnLogout is judged only on a completed logout exchange", "the reference peer mirrors the engine's reset configuration (restarts at 1 when the engine will)", "schedule-driven resets are not exercised here"},
+		Assumptions: []string{"ResetOnLogout is judged only on a completed logout exchange", "the reference peer mirrors the engine's reset configuration (restarts at 1 when the engine will)", "of the schedule-driven resets only ResetSeqTime is exercised (crossed while connected)"},
 		FloorQuick:  200, FloorThorough: 2000,
 		Parts: []core.Part{{Name: "cycles", Run: runCycles, Replay: replayCycles}, {Name: "seqreset", Run: runSeqReset}},
 	})
@@ -155,7 +156,8 @@ func cycles(c *core.Ctx, r *core.Result, idx int, rng *rand.Rand, verbose bool) 
 	if rng.Intn(2) == 0 {
 		cf.StartS, cf.StartT = 2+rng.Intn(9), 2+rng.Intn(9)
 	}
-	st := map[string]string{"ResetOnLogon": yn(cf.RLogon), "ResetOnLogout": yn(cf.RLogout), "ResetOnDisconnect": yn(cf.RDisconnect), "RefreshOnLogon": yn(cf.Refresh)}
+	st := map[string]string{"ResetOnLogon": yn(cf.RLogon), "ResetOnLogout": yn(cf.RLogout), "ResetOnDisconnect": yn(cf.RDisconnect), "RefreshOnLogon": yn(cf.Refresh),
+		"ResetSeqTime": "12:00:00", "EnableResetSeqTime": "Y"}
 	dir := ""
 	if cf.Store != "memory" {
 		dir = storelab.TempDir(c.TmpDir, "c07-")
@@ -193,7 +195,18 @@ func cycles(c *core.Ctx, r *core.Result, idx int, rng *rand.Rand, verbose bool) 
 			nontrivial = true
 		}
 		p := l.NewPeer()
-		if err := l.Connect(); err != nil {
+		if appReset := cf.Initiator && hasFlag && rng.Intn(8) == 0; appReset {
+			// the application asks for a reset by setting the flag on the outgoing Logon in its ToAdmin callback
+			l.App.ToAdminFn = func(m *quickfix.Message) {
+				if m.IsMsgTypeOf("A") {
+					m.Body.SetField(141, quickfix.FIXBoolean(true))
+				}
+			}
+			shape.WriteString("|app-sets-141")
+		}
+		err := l.Connect()
+		l.App.ToAdminFn = nil
+		if err != nil {
 			break
 		}
 		// what did the engine send on connect (initiator)?
@@ -362,6 +375,51 @@ func cycles(c *core.Ctx, r *core.Result, idx int, rng *rand.Rand, verbose bool) 
 		for k := rng.Intn(3); k > 0; k-- {
 			l.Send(lab.AppMessage(fmt.Sprintf("e%d-%d", cyc, k)))
 		}
+		if hasFlag && rng.Intn(6) == 0 {
+			// ResetSeqTime is crossed while connected: the engine sends a Logon with ResetSeqNumFlag=Y, which is number 1
+			day := time.Date(2026, 9, 21+cyc, 0, 0, 0, 0, time.UTC)
+			l.CheckResetTime(day.Add(11*time.Hour + 59*time.Minute + 58*time.Second))
+			mark := len(l.Trace)
+			l.CheckResetTime(day.Add(12*time.Hour + time.Second))
+			var lg fixwire.Fields
+			for _, e := range l.Trace[mark:] {
+				if e.Kind == "out" {
+					if t, _ := e.Fields.Get(35); t == "A" {
+						lg = e.Fields
+					}
+				}
+			}
+			if lg == nil {
+				fail("reset-seq-time/no-logon", "ResetSeqTime was crossed while connected and no Logon was sent")
+				return
+			}
+			if f, _ := lg.Get(141); f != "Y" {
+				fail("reset-seq-time/no-flag", "the Logon sent when ResetSeqTime was crossed does not carry ResetSeqNumFlag=Y")
+				return
+			}
+			l.In("Logon (the peer agrees to the reset)", p.Logon(1, 30, lab.F(141, "Y")))
+			peerSeq = 2
+			if post := snapshotStore(l); post.T != 2 || post.S != 2 || !l.Snap().LoggedOn {
+				fail("reset-seq-time/counters", fmt.Sprintf("after the ResetSeqTime logon exchange counters are (sender %d, target %d), logged on %v; expected (2, 2)", post.S, post.T, l.Snap().LoggedOn))
+				return
+			}
+			shape.WriteString(",seqtime")
+			for k := rng.Intn(3); k > 0; k-- {
+				l.In("app", p.NewOrder(peerSeq, nil, fmt.Sprintf("c%d-r%d", cyc, k)))
+				peerSeq++
+			}
+		}
+		// whatever made the engine send it: a Logon carrying ResetSeqNumFlag=Y is number 1
+		for _, e := range l.Trace[from:] {
+			if e.Kind == "out" {
+				if t, _ := e.Fields.Get(35); t == "A" {
+					if f, _ := e.Fields.Get(141); f == "Y" && e.Seq != 1 {
+						fail("reset-logon/not-number-1", fmt.Sprintf("the engine sent a Logon with ResetSeqNumFlag=Y numbered %d, not 1", e.Seq))
+						return
+					}
+				}
+			}
+		}
 		if !l.Snap().LoggedOn {
 			fail("harness/unexpected-logoff", "the session logged off during plain in-sequence traffic")
 			return
@@ -372,8 +430,20 @@ func cycles(c *core.Ctx, r *core.Result, idx int, rng *rand.Rand, verbose bool) 
 		pre := snapshotStore(l)
 		switch ending {
 		case "peer-logout":
-			l.In("Logout", p.Msg("5", peerSeq, nil, nil))
-			peerSeq++
+			// the Logout's own number may be off: it still ends the session (and resets with ResetOnLogout), but is not consumed
+			lrel := core.Pick(rng, 0, 0, 0, 0, -2, 3)
+			if peerSeq+lrel < 1 {
+				lrel = 0
+			}
+			consumed := 0
+			if lrel == 0 {
+				consumed = 1
+			}
+			l.In(fmt.Sprintf("Logout (number %+d from the expected one)", lrel), p.Msg("5", peerSeq+lrel, nil, nil))
+			peerSeq += consumed
+			if lrel != 0 {
+				fmt.Fprintf(&shape, "[logout%+d]", lrel)
+			}
 			post := snapshotStore(l)
 			if cf.RLogout {
 				if post.S != 1 || post.T != 1 {
@@ -385,8 +455,8 @@ func cycles(c *core.Ctx, r *core.Result, idx int, rng *rand.Rand, verbose bool) 
 					fail("reset-on-disconnect", fmt.Sprintf("ResetOnDisconnect=Y: after the engine closed the connection counters are (%d,%d), expected (1,1)", post.S, post.T))
 					return
 				}
-			} else if post.T != pre.T+1 || post.S != pre.S+len(l.OutThisStep) {
-				fail("persistence/logout", fmt.Sprintf("no reset configured for logout/disconnect, yet counters went (%d,%d) -> (%d,%d) over a logout exchange (%d frames sent)", pre.S, pre.T, post.S, post.T, len(l.OutThisStep)))
+			} else if post.T != pre.T+consumed || post.S != pre.S+len(l.OutThisStep) {
+				fail("persistence/logout", fmt.Sprintf("no reset configured for logout/disconnect, yet counters went (%d,%d) -> (%d,%d) over a logout exchange (%d frames sent, %d consumed)", pre.S, pre.T, post.S, post.T, len(l.OutThisStep), consumed))
 				return
 			}
 			if l.Snap().Connected {
@@ -395,8 +465,20 @@ func cycles(c *core.Ctx, r *core.Result, idx int, rng *rand.Rand, verbose bool) 
 		case "engine-logout":
 			l.Stop()
 			sentLogout := len(l.OutThisStep)
-			l.In("Logout (reply)", p.Msg("5", peerSeq, nil, nil))
-			peerSeq++
+			lrel := core.Pick(rng, 0, 0, 0, 0, -2, 3)
+			if peerSeq+lrel < 1 {
+				lrel = 0
+			}
+			consumed := 0
+			if lrel == 0 {
+				consumed = 1
+			}
+			l.In(fmt.Sprintf("Logout (reply, number %+d from the expected one)", lrel), p.Msg("5", peerSeq+lrel, nil, nil))
+			sentLogout += len(l.OutThisStep)
+			peerSeq += consumed
+			if lrel != 0 {
+				fmt.Fprintf(&shape, "[logout%+d]", lrel)
+			}
 			post := snapshotStore(l)
 			switch {
 			case cf.RLogout || cf.RDisconnect:
@@ -404,7 +486,7 @@ func cycles(c *core.Ctx, r *core.Result, idx int, rng *rand.Rand, verbose bool) 
 					fail("reset-on-logout", fmt.Sprintf("ResetOnLogout=%s ResetOnDisconnect=%s: after the completed logout counters are (%d,%d), expected (1,1)", yn(cf.RLogout), yn(cf.RDisconnect), post.S, post.T))
 					return
 				}
-			case post.T != pre.T+1 || post.S != pre.S+sentLogout:
+			case post.T != pre.T+consumed || post.S != pre.S+sentLogout:
 				fail("persistence/logout", fmt.Sprintf("no reset configured, yet counters went (%d,%d) -> (%d,%d) over an engine-initiated logout", pre.S, pre.T, post.S, post.T))
 				return
 			}
